@@ -22,6 +22,7 @@ func init() {
 	addReplay("C15", "split", replayCNTSplit)
 	addReplay("C15", "closing", replayCNTClosing)
 	addReplay("C15", "chunking", replayCNTChunking)
+	addReplay("C15", "nonnative", replayCNTNonNative)
 	setCanon("C15", canonReals)
 }
 
@@ -34,22 +35,68 @@ func cntReplayInput(ops []content.Operator) string {
 
 // oracleCNTRoundTrip: scan(write(ops)) == ops (names equal, operands equal).
 func oracleCNTRoundTrip(ops []content.Operator) (bool, string) {
+	ok, _, d := oracleCNTRoundTripKey(ops)
+	return ok, d
+}
+
+// oracleCNTRoundTripKey also names the class of a failure which is not a
+// plain difference of names or operands ("" otherwise).
+func oracleCNTRoundTripKey(ops []content.Operator) (ok bool, key string, detail string) {
 	data, err := cntWrite(ops)
 	if err != nil {
-		return false, "write error: " + err.Error()
+		return false, "", "write error: " + err.Error()
 	}
 	data2, err := cntWriteEach(ops)
 	if err != nil || !bytes.Equal(data, data2) {
-		return false, "Operators.RawBytes and Operator.Format disagree"
+		return false, "", "Operators.RawBytes and Operator.Format disagree"
 	}
 	got, err := cntScan(data)
 	if err != nil {
-		return false, "scan error: " + err.Error()
+		return false, "", "scan error: " + err.Error()
 	}
 	if ok, d := cntOpsEqual(ops, got); !ok {
-		return false, d + fmt.Sprintf(" — stream %q", truncate(string(data)))
+		return false, "", d + fmt.Sprintf(" — stream %q", truncate(string(data)))
+	}
+	// "equal operands" under the library's own equality (pdf.Equal): an empty string
+	// which was written non-nil is not re-read as the nil String
+	for i := range ops {
+		for j := range ops[i].Args {
+			if cntEmptyStringNil(ops[i].Args[j], got[i].Args[j]) {
+				return false, "empty-string-nil", fmt.Sprintf("operator %d (%s) operand %d: an empty pdf.String{} was re-read as pdf.String(nil); pdf.Equal/Operator.Equal/StreamsEqual tell them apart — stream %q", i, ops[i].Name, j, truncate(string(data)))
+			}
+		}
+	}
+	return true, "", ""
+}
+
+// oracleCNTNonNative: an inline image dictionary whose numbers are pdf.Number
+// values (an Object which is not Native) is written exactly as the dictionary
+// of their AsPDF images, and therefore re-read as those.
+func oracleCNTNonNative(ops []content.Operator) (bool, string) {
+	nn, changed := cntNonNative(ops)
+	if !changed {
+		return true, ""
+	}
+	want, err := cntWrite(ops)
+	if err != nil {
+		return true, ""
+	}
+	got, err := cntWrite(nn)
+	if err != nil {
+		return false, "write error with pdf.Number values: " + err.Error()
+	}
+	if !bytes.Equal(want, got) {
+		return false, fmt.Sprintf("inline image dictionary with pdf.Number values is written as %q, with the equal pdf.Integer/pdf.Real values as %q", truncate(string(got)), truncate(string(want)))
 	}
 	return true, ""
+}
+
+func replayCNTNonNative(input string) (bool, string) {
+	ops, err := cntOpsUnwire(input)
+	if err != nil {
+		return true, "bad replay input: " + err.Error()
+	}
+	return oracleCNTNonNative(ops)
 }
 
 // oracleCNTSplit: reading the segments of a split stream equals reading the whole.
@@ -179,11 +226,27 @@ func runCNTRoundTrip(c *Ctx) {
 			return
 		}
 		c.Stat("rt_in_domain" + tag)
-		ok, d := oracleCNTRoundTrip(ops)
+		// pdf.Number values in inline image dictionaries (D-C15-1)
+		if ok, d := oracleCNTNonNative(ops); !ok {
+			c.Violate("nonnative", "inline-image-nonnative-value", d, cntReplayInput(ops))
+		} else if _, changed := cntNonNative(ops); changed {
+			c.Stat("rt_nonnative_checked")
+		}
+		ok, okey, d := oracleCNTRoundTripKey(ops)
+		if !ok && okey == "" {
+			// attribute the failure to the operator which fails on its own
+			okey = cntAttribute(ops, func(one []content.Operator) bool {
+				ok1, k1, _ := oracleCNTRoundTripKey(one)
+				return !ok1 && k1 == ""
+			})
+			if okey == "" && len(hazards) > 0 {
+				okey = hazards[0]
+			}
+		}
 		switch {
-		case !ok && len(hazards) > 0:
-			c.Stat("rt_hazard_failed:" + hazards[0])
-			c.Violate("roundtrip", hazards[0], d, cntReplayInput(ops))
+		case !ok && okey != "" && okey != "roundtrip":
+			c.Stat("rt_hazard_failed:" + okey)
+			c.Violate("roundtrip", okey, d, cntReplayInput(ops))
 			return
 		case !ok:
 			c.Violate("roundtrip", "roundtrip", d, cntReplayInput(ops))
@@ -271,6 +334,24 @@ func runCNTRoundTrip(c *Ctx) {
 		{img(pdf.Dict{"Width": pdf.Integer(512), "Height": pdf.Integer(512)}, strings.Repeat("z", 4094))},
 		{img(pdf.Dict{"Width": pdf.Integer(512), "Height": pdf.Integer(513)}, "z")},
 		{img(wh(nil), strings.Repeat("z", 4095)), op("Q")},
+		// D-C15-2: the limit is maxInlineImageBytes with and without a Length key
+		{op("q"), img(pdf.Dict{"W": pdf.Integer(64), "H": pdf.Integer(64), "BPC": pdf.Integer(8), "CS": pdf.Name("G")}, strings.Repeat("x", 4096)), op("Q")},
+		{op("q"), img(pdf.Dict{"W": pdf.Integer(64), "H": pdf.Integer(64), "L": pdf.Integer(4096)}, strings.Repeat("x", 4096)), op("Q")},
+		{op("q"), img(pdf.Dict{"W": pdf.Integer(64), "H": pdf.Integer(64), "L": pdf.Integer(4095)}, strings.Repeat("x", 4095)), op("Q")},
+		{op("q"), img(wh(nil), strings.Repeat("x", 4097)), op("Q")},
+		{op("q"), img(wh(pdf.Dict{"L": pdf.Integer(4097)}), strings.Repeat("x", 4097)), op("Q")},
+		{op("q"), img(wh(nil), strings.Repeat("\n", 4096)), op("Q")},
+		// D-C15-9: ASCII filter, Length key, data starting with white space or a comment
+		{op("q"), img(wh(pdf.Dict{"F": pdf.Name("AHx"), "L": pdf.Integer(14)}), "\n 41 42\n43 44>"), op("Q")},
+		{op("q"), img(wh(pdf.Dict{"F": pdf.Name("A85"), "Length": pdf.Integer(9)}), " 87cUR~>\n"), op("Q")},
+		{op("q"), img(wh(pdf.Dict{"F": pdf.Array{pdf.Name("Fl"), pdf.Name("AHx")}, "L": pdf.Integer(8)}), "%c\n4142>"), op("Q")},
+		// D-C15-7: empty strings
+		{op("BT"), op("Tj", pdf.String{}), op("TJ", pdf.Array{pdf.String("a"), pdf.Integer(-50), pdf.String{}}), op("ET")},
+		{op("BDC", pdf.Name("P"), pdf.Dict{"E": pdf.String{}}), op("EMC"), img(wh(pdf.Dict{"X": pdf.String{}}), "")},
+		// D-C15-8 (known): beyond the reader's nesting limits
+		{img(wh(pdf.Dict{"X": nest(10, pdf.Integer(1), 0)}), "x"), op("q")},
+		{img(wh(pdf.Dict{"X": nest(11, pdf.Integer(1), 0)}), "x"), op("q")},
+		{op("foo", nest(257, pdf.Array{pdf.Integer(1), pdf.Integer(2)}, 0)), op("q")},
 		// the known hazard classes
 		{img(wh(nil), "a\nEI b"), op("Q")},
 		{img(wh(nil), "a\nEI"), op("Q")},
@@ -426,6 +507,7 @@ func runCNTTokens(c *Ctx) {
 		h("BI /W 1/H 1 ", " ID ab\nEI Q\n")
 		h("BI /W 1/H 1 ID ", "\nEI Q\n")
 		h("BI /W 1/H 1/F/AHx ID ", "\nEI Q\n")
+		h("BI /W 1/H 1/F/AHx/L 2 ID ", "\nEI Q\n")
 		c.Case("c:"+string(prefix), true)
 		if left == 0 {
 			return
@@ -486,6 +568,14 @@ func runCNTTokens(c *Ctx) {
 		emit(append(append([]byte{'%'}, bytes.Repeat([]byte{'a'}, n)...), "\nq\n"...))
 		emit(append(append([]byte("BI /W 1/H 1 ID "), bytes.Repeat([]byte{'a'}, n-1)...), "\nEI q\n"...))
 		c.Case(fmt.Sprintf("cap%d", n), true)
+	}
+	// the data limit of inline images, with and without a Length key (D-C15-2)
+	for n := 4092; n <= 4099; n++ {
+		emit(append(append([]byte("BI /W 1/H 1 ID "), bytes.Repeat([]byte{'a'}, n)...), "\nEI q\n"...))
+		emit(append(append([]byte(fmt.Sprintf("BI /W 1/H 1/L %d ID ", n)), bytes.Repeat([]byte{'a'}, n)...), "\nEI q\n"...))
+		emit(append(append([]byte("BI /W 1/H 1 ID "), bytes.Repeat([]byte{'\n'}, n)...), "EI q\n"...))
+		emit(append(append([]byte("BI /W 1/H 1 ID "), bytes.Repeat([]byte{'a'}, n)...), "\n"...))
+		c.Case(fmt.Sprintf("imgcap%d", n), true)
 	}
 	for _, n := range []int{255, 256, 257} {
 		emit(append(append(bytes.Repeat([]byte{'['}, n), bytes.Repeat([]byte{']'}, n)...), " q\n"...))
